@@ -167,7 +167,7 @@ type evidence struct {
 
 // finish prints the per-rule summary, writes evidence and replay files and
 // returns the process exit code.
-func (c *Ctx) finish(verif string, seed int, wall float64, explanation string, extra map[string]any) int {
+func (c *Ctx) finish(verif, out string, seed int, wall float64, explanation string, extra map[string]any) int {
 	known, err := loadKnown(verif)
 	if err != nil {
 		fmt.Fprintf(os.Stderr, "cannot read known findings: %v\n", err)
@@ -186,7 +186,7 @@ func (c *Ctx) finish(verif string, seed int, wall float64, explanation string, e
 		}
 		return c.Obs[i].Construct < c.Obs[j].Construct
 	})
-	violDir := filepath.Join(verif, "evidence", c.Property+".violations")
+	violDir := filepath.Join(out, "evidence", c.Property+".violations")
 	os.RemoveAll(violDir)
 	nViol, nKnown, nDis, nNontriv := 0, 0, 0, 0
 	var knownPrinted []string
@@ -309,8 +309,8 @@ func (c *Ctx) finish(verif string, seed int, wall float64, explanation string, e
 		Assumptions: append([]string{"analysed configuration: linux/amd64, no build tags, non-test files of the three module packages"}, c.Assume...),
 		WallS:       wall, Violations: nViol}
 	b, _ := json.MarshalIndent(ev, "", " ")
-	os.MkdirAll(filepath.Join(verif, "evidence"), 0o755)
-	if err := os.WriteFile(filepath.Join(verif, "evidence", c.Property+".json"), b, 0o644); err != nil {
+	os.MkdirAll(filepath.Join(out, "evidence"), 0o755)
+	if err := os.WriteFile(filepath.Join(out, "evidence", c.Property+".json"), b, 0o644); err != nil {
 		fmt.Fprintf(os.Stderr, "cannot write evidence: %v\n", err)
 		return 2
 	}
